@@ -43,6 +43,7 @@ type know struct {
 	handles   []bool // alive
 	hq        []int  // the bootstrap question of the handle, -1 once it has been answered
 	herr      []bool // ... with something else than results (the handle is an error client)
+	hloc      []bool // ... with a capability of this vat (possibly embargoed: never passed as a parameter)
 	ncall     int
 	nboot     int
 	tag       uint32
@@ -101,6 +102,9 @@ func (k *know) newPQ() uint32 {
 // observe updates the knowledge from the event just run and what came back.
 func (k *know) observe(e evt, msgs []string, deliv string) {
 	a := strings.Split(e.tok[1:], ",")
+	if e.tok == "C~" || e.tok == "R~" {
+		a = []string{"0", "1", "o"}
+	}
 	switch e.tok[0] {
 	case 'B', 'C':
 		q := u32(a[0])
@@ -131,6 +135,7 @@ func (k *know) observe(e evt, msgs []string, deliv string) {
 		k.handles = append(k.handles, true)
 		k.hq = append(k.hq, -2)
 		k.herr = append(k.herr, false)
+		k.hloc = append(k.hloc, false)
 		k.nboot++
 	case 'c', 'p', 'h':
 		if e.tok[0] == 'h' {
@@ -213,6 +218,7 @@ func (k *know) observe(e evt, msgs []string, deliv string) {
 			if k.hq[i] == int(u32(a[0])) {
 				k.hq[i] = -1
 				k.herr[i] = !strings.HasPrefix(a[2], "r10/c")
+				k.hloc[i] = strings.Contains(a[2], "/r") || strings.Contains(a[2], ".r")
 			}
 		}
 		// a canceled question is removed by the Return without a second Finish
@@ -302,7 +308,7 @@ func (k *know) appCaps() string {
 			// only handles whose bootstrap has been answered with a capability (pending promises
 			// and error clients are not modelled as parameters)
 			h := hs[k.r.Intn(len(hs))]
-			if k.hq[h] != -1 || k.herr[h] {
+			if k.hq[h] != -1 || k.herr[h] || k.hloc[h] {
 				cs = append(cs, "n")
 			} else {
 				cs = append(cs, fmt.Sprintf("h%d", h))
@@ -672,6 +678,13 @@ var scenarios = [][]string{
 	{"B0", "b", "c0,-,1", "R0,0,r10/c0/r0", "l0"},
 	// re-import while the old client's Shutdown is delayed (F20)
 	{"b", "R0,0,r10/c0/h5", "h0", "l0", "B0", "C1,i0,10/s:c0/h5,1,1,1", "r0,0", "C2,i0,10/s:c0/h5,1,1,2", "u0", "r1,0", "B3"},
+	// a Call naming itself as promised answer (F24); null Call / Return structs (F25)
+	{"C3,a3:-,10/s:/-,1,1,1"},
+	{"b", "R~"},
+	{"C~"},
+	{"B0", "C~", "r0,0", "B1"},
+	// the peer calls an export that is an embargoed capability (F26, known finding: wedge)
+	{"B0", "b", "b", "c0,-,1", "R0,0,r10/c0/r0", "c1,h0,2", "C1,i1,10/s:/-,1,1,3"},
 	// finish before return, release of result caps, repeated bootstrap (wire refs of one export)
 	{"B0", "B1", "B2", "F0,1", "F1,0", "L0,1", "C3,a2:-,10/s:/-,1,1,1", "F3,1", "r0,s:l0.l0.l1", "F2,1"},
 	// cancel, then the Return of the canceled question; id reuse
